@@ -350,7 +350,32 @@ func (e *Engine) textOrderObligations() []*Obligation {
 				fd = g
 			}
 			got := strings.Join(mentionOrder(fd, known), " ")
-			mk("(*"+n+").String", "text.order", src, got == want, "String() mentions the fields in the order: "+got, st)
+			okOrder, msg := got == want, "String() mentions the fields in the order: "+got
+			// every field is written on every path: a field that is only mentioned inside the body of an if, switch or
+			// loop is left out for some values (the gateway of IPSECKEY/AMTRELAY, selected by its type field, excepted)
+			gw := map[string]bool{}
+			if fs, ok := e.cs.schemaFields(n); ok {
+				for _, f := range fs {
+					if f.Codec == "gateway" {
+						for _, g := range f.GoFields {
+							gw[g] = true
+						}
+					}
+				}
+			}
+			var cond []string
+			for _, f := range e.conditionalOnly(n) {
+				if !gw[f] {
+					cond = append(cond, f)
+				}
+			}
+			if okOrder && len(cond) > 0 {
+				okOrder, msg = false, "String() writes "+strings.Join(cond, ", ")+" only under a condition"
+			}
+			if miss := e.missingAtReturn(n); okOrder && len(miss) > 0 {
+				okOrder, msg = false, "String() has a return before which "+strings.Join(miss, ", ")+" has not been written"
+			}
+			mk("(*"+n+").String", "text.order", src, okOrder, msg, st)
 		}
 		if fd, ok := e.funcBody("(*" + n + ").parse"); ok && recvName(fd) != "" {
 			if g, ok := e.delegate(fd, n); ok {
@@ -381,6 +406,149 @@ func (e *Engine) textOrderObligations() []*Obligation {
 				}
 			}
 			mk("(*"+n+").parse", "text.order", src, good, msg, st)
+		}
+	}
+	return out
+}
+
+// conditionalOnly: text fields of String() whose every mention lies inside the body of an if/switch/for statement
+func (e *Engine) conditionalOnly(tname string) []string {
+	fd, ok := e.funcBody("(*" + tname + ").String")
+	if !ok || recvName(fd) == "" {
+		return nil
+	}
+	if g, ok := e.delegate(fd, tname); ok {
+		fd = g
+	}
+	text, _, ok := e.textFields(tname)
+	if !ok {
+		return nil
+	}
+	recv := recvName(fd)
+	uncond := map[string]bool{}
+	var walk func(n ast.Node, depth int)
+	walk = func(n ast.Node, depth int) {
+		if n == nil {
+			return
+		}
+		ast.Inspect(n, func(m ast.Node) bool {
+			switch x := m.(type) {
+			case *ast.IfStmt:
+				walk(x.Init, depth)
+				walk(x.Body, depth+1)
+				walk(x.Else, depth+1)
+				return false
+			case *ast.SwitchStmt:
+				walk(x.Init, depth)
+				walk(x.Body, depth+1)
+				return false
+			case *ast.ForStmt:
+				walk(x.Body, depth+1)
+				return false
+			case *ast.RangeStmt:
+				walk(x.X, depth)
+				walk(x.Body, depth+1)
+				return false
+			case *ast.SelectorExpr:
+				if f := fieldOf(x, recv); f != "" && depth == 0 {
+					uncond[f] = true
+				}
+			}
+			return true
+		})
+	}
+	walk(fd.Body, 0)
+	var out []string
+	for _, f := range text {
+		if !uncond[f] {
+			out = append(out, f)
+		}
+	}
+	return out
+}
+
+// missingAtReturn: for every return statement of String(), the text fields that have not been written by then
+// (mentions in conditions do not count).  An absent address (codecs a, aaaa) and the gateway alternatives may be left out.
+func (e *Engine) missingAtReturn(tname string) []string {
+	fd, ok := e.funcBody("(*" + tname + ").String")
+	if !ok || recvName(fd) == "" {
+		return nil
+	}
+	if g, ok := e.delegate(fd, tname); ok {
+		fd = g
+	}
+	text, _, ok := e.textFields(tname)
+	if !ok {
+		return nil
+	}
+	exempt := map[string]bool{}
+	if fs, ok := e.cs.schemaFields(tname); ok {
+		for _, f := range fs {
+			switch f.Codec {
+			case "a", "aaaa", "gateway":
+				for _, g := range f.GoFields {
+					exempt[g] = true
+				}
+			}
+		}
+	}
+	recv := recvName(fd)
+	type mention struct {
+		pos token.Pos
+		f   string
+	}
+	var ms []mention
+	var rets []*ast.ReturnStmt
+	var walk func(n ast.Node)
+	walk = func(n ast.Node) {
+		if n == nil {
+			return
+		}
+		ast.Inspect(n, func(m ast.Node) bool {
+			switch x := m.(type) {
+			case *ast.IfStmt:
+				walk(x.Init)
+				walk(x.Body)
+				walk(x.Else)
+				return false
+			case *ast.SwitchStmt:
+				walk(x.Init)
+				walk(x.Body)
+				return false
+			case *ast.ForStmt:
+				walk(x.Body)
+				return false
+			case *ast.FuncLit:
+				return false
+			case *ast.ReturnStmt:
+				rets = append(rets, x)
+			case *ast.SelectorExpr:
+				if f := fieldOf(x, recv); f != "" {
+					ms = append(ms, mention{x.Pos(), f})
+				}
+			}
+			return true
+		})
+	}
+	walk(fd.Body)
+	bad := map[string]bool{}
+	for _, r := range rets {
+		seen := map[string]bool{}
+		for _, m := range ms {
+			if m.pos < r.End() {
+				seen[m.f] = true
+			}
+		}
+		for _, f := range text {
+			if !seen[f] && !exempt[f] {
+				bad[f] = true
+			}
+		}
+	}
+	var out []string
+	for _, f := range text {
+		if bad[f] {
+			out = append(out, f)
 		}
 	}
 	return out
